@@ -1,7 +1,7 @@
 """C05 - each block fits its contents and is freed once with the layout it was requested."""
 import itertools
 
-from .. import atomics, balance, cfg, core, inline, layout, model, symx
+from .. import atomics, balance, cfg, core, inline, layout, model, ptrclass, symx
 from ..facts import operand_place
 from . import c07
 
@@ -408,8 +408,6 @@ def rule_free_type(ctx, rep):
             why = "no Box::from_raw of the handle's pointer found"
             for bj, t2 in B.calls():
                 if atomics.callee_of(t2) in ("<alloc::boxed::Box<T, alloc::alloc::Global>>::from_raw", "<alloc::boxed::Box<T, A>>::from_raw"):
-                    from .. import ptrclass
-
                     N = ptrclass.Norm(F)
                     raw = symx.expr(F, B, t2["args"][0])
                     n = N.norm(raw, {})
@@ -447,6 +445,31 @@ def rule_free_type(ctx, rep):
                         why = "the pointer given to Box::from_raw is re-typed first (%s)" % symx.show(raw)
                     else:
                         why = "the pointer given to Box::from_raw is %s, not the handle's stored block pointer" % ptrclass.show(n)
+            if not ok and not balance.is_api(F, b) and any(F.ty(i)["k"] == "adt" and F.ty(i)["path"] == "alloc::boxed::Box" and F.mentions_adt(i, F.inner_path) for i in b.get("inputs", [])):
+                # the freeing function is handed the block as a `Box<INNER>` (`fn drop_slow(b: Box<ArcInner<T>>)`): the Box is built
+                # by whoever calls it - judged on the callers' bodies with the private helpers in between inlined
+                g = cfg.call_graph(F)
+                callers = [c for c in F.body_list if c["kind"] in ("Fn", "AssocFn") and balance.is_api(F, c) and b["key"] in cfg.reachable_from(g, [c["key"]])]
+                good = bool(callers)
+                for c in callers:
+                    ib = inline.inlined(F, c["key"]) or c
+                    IB = cfg.Body(ib)
+                    N2 = ptrclass.Norm(F)
+                    found = False
+                    for _bj, t2 in IB.calls():
+                        if atomics.callee_of(t2) in ("<alloc::boxed::Box<T, alloc::alloc::Global>>::from_raw", "<alloc::boxed::Box<T, A>>::from_raw"):
+                            raw = symx.expr(F, IB, t2["args"][0])
+                            n = N2.norm(raw, {})
+                            x = n
+                            while x[0] == "stored":
+                                x = x[1]
+                            if n[0] == "stored" and x == ("arg", 1) and not (raw[0] == "cast" and raw[1] == "PtrToPtr"):
+                                found = True
+                    if not found:
+                        good = False
+                        why = "no Box::from_raw of the handle's own stored pointer found in %s, which hands the block to %s" % (c["key"], b["key"])
+                if good:
+                    ok = True
             if not ok and what == "dealloc":
                 ok2, why2 = _dealloc_free_type(F, E, b)
                 if ok2 is not None:
